@@ -16,8 +16,10 @@ structure Inv (g : Geometry) (s : State) : Prop where
   rdLt : ∀ r rd, s.readers r = some rd → r < s.nextR
   /-- an attached reader's entry is alive (the lock), is the response the reader attached to, and lists the reader -/
   rdAtt : ∀ r rd, s.readers r = some rd → rd.attached = true →
-    ∃ ent, s.entries rd.eid = some ent ∧ r ∈ ent.readers ∧ ent.key = rd.key ∧ ent.ver = rd.ver ∧ rd.idx ≤ ent.chain.length
-  rdGot : ∀ r rd, s.readers r = some rd → rd.got = (List.range rd.idx).map (fun i => (rd.eid, i))
+    ∃ ent, s.entries rd.eid = some ent ∧ r ∈ ent.readers ∧ ent.key = rd.key ∧ ent.ver = rd.ver ∧ rd.idx ≤ ent.chain.length ∧
+      (rd.done = some true → ent.complete = true)
+  rdGot : ∀ r rd, s.readers r = some rd →
+    rd.got = (List.range rd.idx).map (fun i => (rd.eid, i)) ∧ rd.idx ≤ g.nchunks rd.key rd.ver
   rdDone : ∀ r rd, s.readers r = some rd → rd.done = some true → rd.idx = g.nchunks rd.key rd.ver
 
 theorem inv_init (g : Geometry) : Inv g State.init := by
@@ -28,7 +30,7 @@ theorem inv_updEntry {g : Geometry} {s : State} (h : Inv g s) {e : Nat} {ent ent
     (hk : ent'.key = ent.key) (hv : ent'.ver = ent.ver) (hc : ent'.chain = ent.chain)
     (hr : ∀ r rd, s.readers r = some rd → rd.attached = true → rd.eid = e → r ∈ ent'.readers)
     (hcomp : ent'.complete = true → ent'.chain.length = g.nchunks ent'.key ent'.ver ∧ ent'.aborted = false ∧ ent'.writing = false)
-    (hab : ent'.aborted = true → ent'.writing = false) :
+    (hab : ent'.aborted = true → ent'.writing = false) (hcm : ent.complete = true → ent'.complete = true) :
     Inv g { s with entries := fun x => if x = e then some ent' else s.entries x } := by
   constructor
   · intro x entx hx
@@ -62,7 +64,7 @@ theorem inv_updEntry {g : Geometry} {s : State} (h : Inv g s) {e : Nat} {ent ent
     · refine ⟨ent', by simp [hxe], hr r rd hrd hat hxe, ?_, ?_, ?_⟩
       · rw [hxe, he] at h1; injection h1 with h1; subst h1; rw [hk]; exact h3
       · rw [hxe, he] at h1; injection h1 with h1; subst h1; rw [hv]; exact h4
-      · rw [hxe, he] at h1; injection h1 with h1; subst h1; rw [hc]; exact h5
+      · rw [hxe, he] at h1; injection h1 with h1; subst h1; rw [hc]; exact ⟨h5.1, fun hd => hcm (h5.2 hd)⟩
     · exact ⟨entr, by simp [hxe, h1], h2, h3, h4, h5⟩
   · exact h.rdGot
   · exact h.rdDone
@@ -136,7 +138,7 @@ theorem inv_unpublish {g : Geometry} {s : State} (h : Inv g s) (e : Nat) : Inv g
           obtain ⟨entr, a, b, _⟩ := h.rdAtt r rd hrd hat
           rw [heq, he] at a; injection a with a; subst a; exact b)
       (by intro hc; exact h.compl _ ent he hc)
-      (by intro ha; exact h.abortedIdle _ ent he ha)
+      (by intro ha; exact h.abortedIdle _ ent he ha) (fun hc => hc)
     exact inv_setPub h1 _
 
 theorem inv_replaceOld {g : Geometry} {s : State} (h : Inv g s) (k : Key) : Inv g (replaceOld s k) := by
@@ -232,7 +234,7 @@ theorem step_inv (g : Geometry) {s : State} (h : Inv g s) (a : Action) : Inv g (
           obtain ⟨entr, a, b, c, d, e5⟩ := h.rdAtt r rd hrd hat
           by_cases hxe : rd.eid = e
           · rw [hxe, he] at a; injection a with a; subst a
-            exact ⟨{ ent with chain := ent.chain ++ [slot] }, by simp [hxe], b, c, d, by simp; omega⟩
+            exact ⟨{ ent with chain := ent.chain ++ [slot] }, by simp [hxe], b, c, d, by simp; omega, e5.2⟩
           · exact ⟨entr, by simp [hxe, a], b, c, d, e5⟩
         · exact h.rdGot
         · exact h.rdDone
@@ -254,7 +256,7 @@ theorem step_inv (g : Geometry) {s : State} (h : Inv g s) (a : Action) : Inv g (
               cases hab : ent.aborted with
               | false => rfl
               | true => have := h.abortedIdle _ ent he hab; rw [this] at hc; exact absurd hc.1 (by decide))
-          (by intro _; rfl)
+          (by intro _; rfl) (fun _ => rfl)
       · exact h
   | abort e =>
     simp only [step]
@@ -271,7 +273,7 @@ theorem step_inv (g : Geometry) {s : State} (h : Inv g s) (a : Action) : Inv g (
           (by intro hcx
               have := (h.compl _ ent he hcx).2.2
               rw [this] at hw; cases hw)
-          (by intro _; rfl)
+          (by intro _; rfl) (fun hc => hc)
       · exact h
   | openRead k =>
     simp only [step]
@@ -287,7 +289,7 @@ theorem step_inv (g : Geometry) {s : State} (h : Inv g s) (a : Action) : Inv g (
               obtain ⟨entr, a, b, _⟩ := h.rdAtt r rd hrd hat
               rw [heq, he] at a; injection a with a; subst a; exact List.mem_cons_of_mem _ b)
           (by intro hc; exact h.compl _ ent he hc)
-          (by intro ha; exact h.abortedIdle _ ent he ha)
+          (by intro ha; exact h.abortedIdle _ ent he ha) (fun hc => hc)
         constructor
         · exact h1.entLt
         · exact h1.slotOwn
@@ -302,7 +304,7 @@ theorem step_inv (g : Geometry) {s : State} (h : Inv g s) (a : Action) : Inv g (
           by_cases hr : r = s.nextR
           · subst hr
             simp at hrd; subst hrd
-            exact ⟨{ ent with readers := s.nextR :: ent.readers }, by simp, by simp, rfl, rfl, by simp⟩
+            exact ⟨{ ent with readers := s.nextR :: ent.readers }, by simp, by simp, rfl, rfl, by simp, by simp⟩
           · simp [hr] at hrd
             exact h1.rdAtt r rd hrd hat
         · intro r rd hrd
@@ -348,12 +350,15 @@ theorem step_inv (g : Geometry) {s : State} (h : Inv g s) (a : Action) : Inv g (
           · intro x rdx hx hax
             by_cases hxr : x = r
             · subst hxr; simp at hx; subst hx
-              exact ⟨ent, a, b, c, d, by simp; omega⟩
+              exact ⟨ent, a, b, c, d, by simp; omega, by simp [hdn]⟩
             · simp [hxr] at hx; exact h.rdAtt x rdx hx hax
           · intro x rdx hx
             by_cases hxr : x = r
             · subst hxr; simp at hx; subst hx
-              simp [List.range_succ, h.rdGot _ _ hrd]
+              have hle := h.chainLe _ _ a
+              rw [c, d] at hle
+              refine ⟨by simp [List.range_succ, (h.rdGot _ _ hrd).1], ?_⟩
+              simp only; omega
             · simp [hxr] at hx; exact h.rdGot x rdx hx
           · intro x rdx hx hd
             by_cases hxr : x = r
@@ -381,7 +386,7 @@ theorem step_inv (g : Geometry) {s : State} (h : Inv g s) (a : Action) : Inv g (
               · simp [hxr] at hx; exact h.rdLt _ _ hx
             · intro x rdx hx hax
               by_cases hxr : x = r
-              · subst hxr; simp at hx; subst hx; exact ⟨ent, a, b, c, d, e5⟩
+              · subst hxr; simp at hx; subst hx; exact ⟨ent, a, b, c, d, e5.1, fun _ => hcomp⟩
               · simp [hxr] at hx; exact h.rdAtt x rdx hx hax
             · intro x rdx hx
               by_cases hxr : x = r
@@ -406,7 +411,7 @@ theorem step_inv (g : Geometry) {s : State} (h : Inv g s) (a : Action) : Inv g (
                 · simp [hxr] at hx; exact h.rdLt _ _ hx
               · intro x rdx hx hax
                 by_cases hxr : x = r
-                · subst hxr; simp at hx; subst hx; exact ⟨ent, a, b, c, d, e5⟩
+                · subst hxr; simp at hx; subst hx; exact ⟨ent, a, b, c, d, e5.1, by simp⟩
                 · simp [hxr] at hx; exact h.rdAtt x rdx hx hax
               · intro x rdx hx
                 by_cases hxr : x = r
@@ -458,7 +463,7 @@ theorem step_inv (g : Geometry) {s : State} (h : Inv g s) (a : Action) : Inv g (
         · rename_i ent he
           apply inv_tryFree
           have he' : s.entries rd.eid = some ent := he
-          refine inv_updEntry (ent' := { ent with readers := ent.readers.filter (· ≠ r) }) hdet he rfl rfl rfl ?_ ?_ ?_
+          refine inv_updEntry (ent' := { ent with readers := ent.readers.filter (· ≠ r) }) hdet he rfl rfl rfl ?_ ?_ ?_ ?_
           · intro x rdx hx hax heq
             by_cases hxr : x = r
             · subst hxr; simp at hx; subst hx; simp at hax
@@ -468,6 +473,7 @@ theorem step_inv (g : Geometry) {s : State} (h : Inv g s) (a : Action) : Inv g (
               simp [List.mem_filter, b, hxr]
           · intro hc; exact h.compl _ ent he' hc
           · intro ha; exact h.abortedIdle _ ent he' ha
+          · exact fun hc => hc
       · exact h
   | evict e =>
     simp only [step]
@@ -487,5 +493,37 @@ theorem run_inv (g : Geometry) (as : List Action) {s : State} (h : Inv g s) : In
   induction as generalizing s with
   | nil => exact h
   | cons a rest ih => exact ih (step_inv g h a)
+
+/-! ### bytes -/
+
+/-- the bytes of chunk `i` of response `ver` for `key`: what the writer puts into the slot it fills with (entry, i) -/
+abbrev Chunking := Key → Ver → Nat → List UInt8
+
+/-- the whole response as the origin sent it: its chunks in order -/
+def content (g : Geometry) (c : Chunking) (k : Key) (v : Ver) : List UInt8 :=
+  ((List.range (g.nchunks k v)).map (c k v)).flatten
+
+/-- the bytes a reader has been given: the contents of the slots it copied, in the order it copied them -/
+def delivered (c : Chunking) (rd : Reader) : List UInt8 :=
+  (rd.got.map fun p => c rd.key rd.ver p.2).flatten
+
+theorem delivered_eq {g : Geometry} {s : State} (h : Inv g s) (c : Chunking) {r : Nat} {rd : Reader} (hrd : s.readers r = some rd) :
+    delivered c rd = ((List.range rd.idx).map (c rd.key rd.ver)).flatten := by
+  unfold delivered
+  rw [(h.rdGot r rd hrd).1, List.map_map]
+  rfl
+
+theorem range_split (n m : Nat) (h : n ≤ m) : List.range m = List.range n ++ (List.range (m - n)).map (· + n) := by
+  induction m with
+  | zero => have : n = 0 := by omega
+            subst this; simp
+  | succ m ih =>
+    rcases Nat.lt_or_ge n (m + 1) with hl | hl
+    · have hle : n ≤ m := by omega
+      have e : m + 1 - n = (m - n) + 1 := by omega
+      rw [List.range_succ, ih hle, e, List.range_succ, List.map_append, List.append_assoc]
+      simp; omega
+    · have : n = m + 1 := by omega
+      subst this; simp
 
 end SquidModel.Cache.Store
